@@ -391,17 +391,29 @@ def async_block(ctx, report, rule, facts, config):
     prog = ctx.program(facts)
     inner = facts.one(A.AD_DATA + "::inner")
     report.touched(inner, config)
+    # who reads the channel, and how: the blocking accessor (with its private helpers) only blocks, the polling one only
+    # polls, nobody else touches the receiver
+    nb_body = facts.one(A.AD_DATA + "::inner_noblock")
     recvs = {}
     for b in sorted(facts.bodies.values(), key=lambda b: b.key):
         for bb, t in b.normal_calls():
             c = Callee(t["func"])
-            if "mpsc::Receiver" in c.path or "mpmc::" in c.path and c.name.startswith("recv"):
-                recvs.setdefault(b.qname, []).append((c.name, b.loc(bb)))
-    want = {A.AD_DATA + "::inner": ["recv"], A.AD_DATA + "::inner_noblock": ["try_recv"]}
-    for q in sorted(set(recvs) | set(want)):
-        got = [n for n, _ in recvs.get(q, [])]
-        report.ob(rule, "recv/%s" % q, got == want.get(q), "%s uses %s" % (q, got) if got == want.get(q) else
-                  "%s receives with %s (expected %s): completion would not be awaited" % (q, got, want.get(q)), site=(recvs.get(q) or [(None, None)])[0][1], config=config)
+            if ("mpsc::Receiver" in c.path or "mpmc::" in c.path) and (c.name.startswith("recv") or c.name.startswith("try_recv") or c.name in ("iter", "try_iter")):
+                r = b
+                while r.is_closure and r.parent_key in facts.bodies:
+                    r = facts.bodies[r.parent_key]
+                recvs.setdefault(r.key, []).append((c.name, b.loc(bb), r))
+    cone_block = facts.cone([inner], stop=lambda x: x.key == nb_body.key)
+    cone_poll = facts.cone([nb_body], stop=lambda x: x.key == inner.key)
+    got_block = sorted(set(n for k, v in recvs.items() if k in cone_block for n, _, _ in v))
+    got_poll = sorted(set(n for k, v in recvs.items() if k in cone_poll and k not in cone_block for n, _, _ in v))
+    report.ob(rule, "recv/%s" % (A.AD_DATA + "::inner"), got_block == ["recv"], "%s receives with %s" % (A.AD_DATA + "::inner", got_block) if got_block == ["recv"] else
+              "%s receives with %s (expected ['recv']): completion would not be awaited" % (A.AD_DATA + "::inner", got_block), site=inner.loc(), config=config)
+    report.ob(rule, "recv/%s" % (A.AD_DATA + "::inner_noblock"), got_poll == ["try_recv"], "%s receives with %s" % (A.AD_DATA + "::inner_noblock", got_poll) if got_poll == ["try_recv"] else
+              "%s receives with %s (expected ['try_recv'])" % (A.AD_DATA + "::inner_noblock", got_poll), site=nb_body.loc(), config=config)
+    for k, v in sorted(recvs.items()):
+        if k not in cone_block and k not in cone_poll:
+            report.ob(rule, "recv/%s" % v[0][2].qname, False, "%s reads the state channel with %s outside Data::inner / inner_noblock" % (v[0][2].qname, [n for n, _, _ in v]), site=v[0][1], config=config)
     # inner() / inner_noblock(): what happens in each state
     from . import semq as Q
     SELFP = ("param", 1)
@@ -411,16 +423,23 @@ def async_block(ctx, report, rule, facts, config):
     def tabulate(qname, recv_name):
         b = facts.one(qname)
         ev, ends = Q.sem(ctx, facts, qname)
+        from .worldrules import _deep
         rows = []
-        for e in ends:
-            st = e.path.variant(SELFP)
-            rc = [x for x in e.path.events if x[0] == "call" and x[2].name == recv_name and ("mpsc" in x[2].path or "mpmc" in x[2].path) and Q.strip(ev, x[3][0]) == chan]
-            other = [x for x in e.path.events if x[0] == "call" and x[2].name in ("recv", "try_recv", "recv_timeout", "try_iter", "iter") and ("mpsc" in x[2].path or "mpmc" in x[2].path) and x not in rc]
-            got = e.path.variant(rc[0][4]) if rc else None
+        items = [(e.path, _deep(e.path.events), e.kind, e.ret) for e in ends]
+        # written as a loop instead of a recursive call: going round again after installing the state is the recursion
+        for L in Q.all_loops(ends):
+            for it in L.iters:
+                if it.end == "continue":
+                    items.append((it.path, _deep(it.path.events), "again", None))
+        for (path, events, kind, ret) in items:
+            st = path.variant(SELFP)
+            rc = [x for x in events if x[0] == "call" and x[2].name == recv_name and ("mpsc" in x[2].path or "mpmc" in x[2].path) and Q.strip(ev, x[3][0]) == chan]
+            other = [x for x in events if x[0] == "call" and x[2].name in ("recv", "try_recv", "recv_timeout", "try_iter", "iter") and ("mpsc" in x[2].path or "mpmc" in x[2].path) and x not in rc]
+            got = path.variant(rc[0][4]) if rc else None
             err = None
             if rc and got == "Err":
-                err = e.path.variant(("field", ("variant", rc[0][4], "Err"), "0", "std::result::Result"))
-            stores = [x for x in e.path.events if x[0] == "store" and x[2] == SELFP]
+                err = path.variant(("field", ("variant", rc[0][4], "Err"), "0", "std::result::Result"))
+            stores = [x for x in events if x[0] == "store" and x[2] == SELFP]
             installed = None
             if stores:
                 v = stores[-1][3]
@@ -428,8 +447,11 @@ def async_block(ctx, report, rule, facts, config):
                     installed = "received"
                 else:
                     installed = "other"
-            rec = [x for x in e.path.events if x[0] == "call" and x[2].key == b.key and Q.strip(ev, x[3][0]) == SELFP]
-            rows.append(dict(end=e.kind, state=st, recv=len(rc), other=len(other), got=got, err=err, installed=installed, ret=e.ret, rec=rec, ev=ev))
+            rec = [x for x in events if x[0] == "call" and x[2].key == b.key and Q.strip(ev, x[3][0]) == SELFP]
+            if kind == "again":
+                rec = rec or [None]
+            rows.append(dict(end="return" if kind == "again" else kind, state=st, recv=len(rc), other=len(other), got=got, err=err, installed=installed,
+                             ret=(rec[-1][4] if (kind == "again" and rec[-1] is not None) else ret), rec=rec, again=(kind == "again"), ev=ev))
         return b, ev, rows
 
     inner, ev, rows = tabulate(A.AD_DATA + "::inner", "recv")
@@ -447,7 +469,7 @@ def async_block(ctx, report, rule, facts, config):
                 pr_rx.append("with the job in flight, recv() is called %d time(s)" % r["recv"])
             elif r["got"] == "Ok":
                 seen.add("Rx-Ok")
-                back = (r["rec"] and r["ret"] == r["rec"][-1][4]) or _is_received_state(ev, r)
+                back = r.get("again") or (r["rec"] and r["ret"] == r["rec"][-1][4]) or _is_received_state(ev, r)
                 if not (r["end"] == "return" and r["installed"] == "received" and back):
                     pr_rx.append("the received state is not installed into *self and handed out")
             elif r["got"] == "Err":
@@ -486,8 +508,8 @@ def async_block(ctx, report, rule, facts, config):
     for r in rows:
         if r["other"]:
             pt.append("the channel is read in another way than try_recv()")
-        some = r["end"] == "return" and r["ret"][0] == "agg" and r["ret"][2] == "std::option::Option::Some"
-        none = r["end"] == "return" and r["ret"][0] == "agg" and r["ret"][2] == "std::option::Option::None"
+        some = r["end"] == "return" and r["ret"] is not None and r["ret"][0] == "agg" and r["ret"][2] == "std::option::Option::Some"
+        none = r["end"] == "return" and r["ret"] is not None and r["ret"][0] == "agg" and r["ret"][2] == "std::option::Option::None"
         if r["state"] == "Inner":
             seen.add("home")
             if not (some and Q.strip(ev3, r["ret"][3][0]) == state and not r["recv"]):
@@ -497,7 +519,7 @@ def async_block(ctx, report, rule, facts, config):
                 pt.append("with the job in flight, try_recv() is called %d time(s)" % r["recv"])
             elif r["got"] == "Ok":
                 seen.add("received")
-                back = (r["rec"] and r["ret"] == r["rec"][-1][4]) or (some and _is_received_state(ev3, dict(r, ret=r["ret"][3][0])))
+                back = r.get("again") or (r["rec"] and r["ret"] == r["rec"][-1][4]) or (some and _is_received_state(ev3, dict(r, ret=r["ret"][3][0])))
                 if not (r["installed"] == "received" and back):
                     pt.append("a received state is not installed and handed out")
             elif r["got"] == "Err" and r["err"] == "Empty":
